@@ -8,7 +8,7 @@ from __future__ import annotations
 import ast
 from typing import Any, Dict, List, Optional, Tuple
 
-from ..kit import Ctx, calls, calls_target, kw, loops, normal_paths, poly_of, rule, short, stores
+from ..kit import path_text, Ctx, calls, calls_target, kw, loops, normal_paths, poly_of, rule, short, stores
 from ..paths import Event, Path
 from ..terms import NONE, Term, key, strip_ver, substitute, subterms
 
@@ -160,7 +160,8 @@ def r2(ctx: Ctx) -> None:
                 if not ok and M[0] == "attr" and M[1] == ("sym", "self"):
                     ok = _setup_guards_attr(ctx, f.cls.name, M[2])
                     how = f"setup rejects an inaccessible self.{M[2]}"
-                ctx.check(ok, f, e.node, f"{f.qualname}: order for {short(M)} is built only if that market is accessible", "is_market_accessible(market_id=M.market_id) decided true (or validated in setup)", how if ok else "no access test dominates this construction")
+                ctx.check(ok, f, e.node, f"{f.qualname}: order for {short(M)} is built only if that market is accessible", "is_market_accessible(market_id=M.market_id) decided true (or validated in setup)", how if ok else "no access test dominates this construction", guard="text",
+                          guard_text=" ".join(str(x.data.get("target", "")).replace(".", " ") for x in p.walk_events(True) if x.kind == "note" and x.data.get("what") == "inline"))  # orders built inside a routine that is new in this tree
     ctx.require(n >= 8, "fewer reachable Order constructions than confirmed by reading")
 
 
@@ -393,7 +394,7 @@ def r5(ctx: Ctx) -> None:
                 ctx.unrec(f, ie.node, "hedged basket: index leg n x v on the index, one leg of v per component", "the legs are hedged, but v is not the configured order volume: how the basket is sized is not decided", f"v = {short(cv)[:120]}")
                 continue
             ctx.check(okv and okm and one, f, ie.node, "hedged basket: index leg n x v on the index, one leg of v per component", "index volume = len(components) x v; each component exactly one order of v", f"index vol={short(kw(ie, 'volume'))}, component vol={short(kw(ce, 'volume'))}, per-component orders ok={one}")
-        ctx.check(ok and got_sides == want_sides, f, f.node, "direction: index cheap (P < I, I - P > thr) -> buy index / sell components; index dear -> the mirror image; otherwise nothing", str(want_sides), str(got_sides), guard="text", guard_text=p.describe())
+        ctx.check(ok and got_sides == want_sides, f, f.node, "direction: index cheap (P < I, I - P > thr) -> buy index / sell components; index dear -> the mirror image; otherwise nothing", str(want_sides), str(got_sides), guard="text", guard_text=path_text(p))
     ctx.require(n >= 2, f"{q}: acting paths not found")
     # nothing is sent when neither gap condition holds
     for p in _paths(ctx, q):
